@@ -36,7 +36,86 @@ func main() {
 		f.Close()
 		os.Exit(code)
 	}
+	if *prop == "all" || strings.Contains(*prop, ",") {
+		os.Exit(runMany(*prop, *repo, *verif))
+	}
 	os.Exit(run(*prop, *tier, *repo, *verif, *noEvidence, *dump, *configs))
+}
+
+// runMany evaluates several properties on ONE load of the program (default
+// configuration, no evidence written). Used to evaluate mutants and seeded
+// changes quickly; registered checks always run one property per process.
+// Output: one "PROP <id> exit=<0|1|2> ..." line per property, followed by its
+// violated obligations.
+func runMany(list, repo, verif string) int {
+	ids := rules.IDs()
+	if list != "all" {
+		ids = strings.Split(list, ",")
+	}
+	p, err := kit.Load(kit.Config{Dir: repo})
+	if err != nil {
+		fmt.Fprintf(os.Stderr, "rainlint: CHECK BROKEN: %v\n", err)
+		return 2
+	}
+	kf, err := kit.LoadKnown(filepath.Join(verif, "known_findings.json"))
+	if err != nil {
+		fmt.Fprintf(os.Stderr, "rainlint: CHECK BROKEN: %v\n", err)
+		return 2
+	}
+	worst := 0
+	for _, id := range ids {
+		pd := rules.Get(id)
+		if pd == nil {
+			fmt.Printf("PROP %s exit=2 unknown property\n", id)
+			worst = 2
+			continue
+		}
+		ctx := kit.NewCtx(p, id)
+		perr := func() (err error) {
+			defer func() {
+				if r := recover(); r != nil {
+					if ae, ok := r.(kit.AnchorError); ok {
+						err = ae
+						return
+					}
+					err = fmt.Errorf("checker panic: %v", r)
+				}
+			}()
+			pd.Run(ctx)
+			return nil
+		}()
+		if perr != nil {
+			fmt.Printf("PROP %s exit=2 %v\n", id, perr)
+			if worst == 0 {
+				worst = 2
+			}
+			continue
+		}
+		res := &kit.Result{Prop: id, Obs: kit.MergeObs(ctx.Obs), Floors: ctx.Floors}
+		v := kit.Judge(res, kf)
+		code := 0
+		switch {
+		case len(v.Violations) > 0:
+			code = 1
+		case len(v.Undecided) > 0 || len(v.FloorFails) > 0:
+			code = 2
+		}
+		fmt.Printf("PROP %s exit=%d obligations=%d known=%d violations=%d undecided=%d floorfails=%d\n", id, code, v.Obligations, len(v.Known), len(v.Violations), len(v.Undecided), len(v.FloorFails))
+		for _, o := range v.Violations {
+			fmt.Printf("  violated %s %s @%s: %s\n", o.Rule, o.Key, o.Pos, o.Why)
+		}
+		for _, f := range v.FloorFails {
+			fmt.Printf("  floor %s %s: %d < %d\n", f.Rule, f.What, f.Count, f.Min)
+		}
+		if code == 1 || (code == 2 && worst == 0) {
+			if code == 1 {
+				worst = 1
+			} else {
+				worst = 2
+			}
+		}
+	}
+	return worst
 }
 
 func run(propID, tier, repo, verif string, noEvidence, dump bool, cfgFlag string) (code int) {
